@@ -5,6 +5,7 @@ import (
 	"encoding/json"
 	"fmt"
 	"math"
+	"math/big"
 	"net"
 	"reflect"
 	"sort"
@@ -133,6 +134,36 @@ type C18Times struct {
 	Quoted int64           `json:"quoted,string"`
 }
 
+// members held through a pointer whose type marshals itself with pointer-receiver methods
+type C18PText struct{ S string }
+
+func (p *C18PText) MarshalText() ([]byte, error) { return []byte("pt:" + p.S), nil }
+func (p *C18PText) UnmarshalText(b []byte) error {
+	p.S = strings.TrimPrefix(string(b), "pt:")
+	return nil
+}
+
+type C18PJSON struct{ N int }
+
+func (p *C18PJSON) MarshalJSON() ([]byte, error) { return []byte(fmt.Sprintf("[%d]", p.N)), nil }
+func (p *C18PJSON) UnmarshalJSON(b []byte) error {
+	_, err := fmt.Sscanf(string(b), "[%d]", &p.N)
+	return err
+}
+
+type C18PtrMarshalers struct {
+	Big   *big.Int             `json:"big"`
+	Bigs  []*big.Int           `json:"bigs"`
+	BigM  map[string]*big.Int  `json:"bigm"`
+	Float *big.Float           `json:"float,omitempty"`
+	Text  *C18PText            `json:"text"`
+	Texts []*C18PText          `json:"texts"`
+	JSON  *C18PJSON            `json:"json"`
+	JSONs map[string]*C18PJSON `json:"jsons"`
+	ByVal big.Int              `json:"byval"`
+	Plain string               `json:"plain"`
+}
+
 type c18Corpus struct {
 	name      string
 	t         reflect.Type
@@ -159,6 +190,7 @@ func c18CorpusTypes() []c18Corpus {
 		{"Slash(names needing pointer escapes)", reflect.TypeOf(C18Slash{}), false},
 		{"Deep(8 levels, not recursive)", reflect.TypeOf(C18Deep{}), false},
 		{"Times(standard-library types)", reflect.TypeOf(C18Times{}), false},
+		{"PtrMarshalers(pointer-receiver MarshalJSON / MarshalText behind pointers)", reflect.TypeOf(C18PtrMarshalers{}), false},
 	}
 }
 
@@ -324,6 +356,12 @@ func (p *c18Pop) fill(v reflect.Value, omitempty bool) {
 		return
 	case t == reflect.TypeOf(json.Number("")):
 		v.Set(reflect.ValueOf(json.Number([]string{"12", "-0.5", "9007199254740992"}[p.variant%3])))
+		return
+	case t == reflect.TypeOf(big.Int{}):
+		v.Set(reflect.ValueOf(*new(big.Int).SetInt64([]int64{7, -123456789012, 0}[p.variant%3])))
+		return
+	case t == reflect.TypeOf(big.Float{}):
+		v.Set(reflect.ValueOf(*big.NewFloat([]float64{1.5, -2.25, 0}[p.variant%3])))
 		return
 	case t == reflect.TypeOf(net.IP(nil)):
 		v.Set(reflect.ValueOf(net.ParseIP([]string{"10.1.2.3", "::1", "255.255.255.255"}[p.variant%3])))
